@@ -38,9 +38,11 @@ Keys == {"S", "B"}          \* S: a str-typed key, B: a bool-typed key
 Bad == "BAD"                \* a key the configuration does not know
 Unset == "unset"
 None == "none"
-RawVals(k) == IF k = "S" THEN {"x", "", "n7"} ELSE {"T", "F", "s_true", "s_0"}
+RawVals(k) == IF k = "S" THEN {"x", "", "n7", "n1", "f1", "bT"} ELSE {"T", "F", "s_true", "s_0"}
 \* "n7" is the integer 7, "T"/"F" the booleans, "s_true"/"s_0" the strings "true"/"0"
-Coerce(k, r) == IF k = "S" THEN (IF r = "n7" THEN "7" ELSE r)
+\* "n1" / "f1" / "bT" given to the str-typed key: the integer 1, the float 1.0, the boolean True - three values that compare (and
+\* hash) equal in the implementation language and must still come back as three different strings
+Coerce(k, r) == IF k = "S" THEN (IF r = "n7" THEN "7" ELSE IF r = "n1" THEN "1" ELSE IF r = "f1" THEN "1.0" ELSE IF r = "bT" THEN "True" ELSE r)
                 ELSE IF r \in {"T", "s_true"} THEN "T" ELSE "F"
 Default(k) == IF k = "S" THEN "" ELSE "F"
 
@@ -50,7 +52,8 @@ KwSmall == { <<>>, <<Pair("S", "x")>>, <<Pair("B", "T")>>, <<Pair("S", "")>>, <<
 KwFull == KwSmall \cup { <<Pair("S", "n7")>>, <<Pair("B", "s_true")>>, <<Pair("B", "s_0")>>,
                          <<Pair(Bad, "x"), Pair("S", "x")>>, <<Pair(Bad, "x"), Pair("B", "T")>>,
                          <<Pair("S", "x"), Pair("B", "T")>>, <<Pair("S", ""), Pair("B", "F")>> }
-Kwargs == IF KwLevel = 1 THEN KwSmall ELSE KwFull
+KwNum == { <<Pair("S", "n1")>>, <<Pair("S", "f1")>>, <<Pair("S", "bT")>>, <<Pair("B", "T")>> }
+Kwargs == IF KwLevel = 1 THEN KwSmall ELSE IF KwLevel = 3 THEN KwNum ELSE KwFull
 HasBad(kw) == \E i \in DOMAIN kw : kw[i][1] = Bad
 KwMap(kw) == {<<kw[i][1], Coerce(kw[i][1], kw[i][2])>> : i \in {j \in DOMAIN kw : kw[j][1] # Bad}}
 
